@@ -1,0 +1,14 @@
+//go:build verif
+// +build verif
+
+package sqlittle
+
+import (
+	sdb "github.com/alicebob/sqlittle/db"
+)
+
+// VerifWrap makes a high level DB from a low level Database (verification
+// hook, see db/verif_hooks.go).
+func VerifWrap(d *sdb.Database) *DB {
+	return &DB{db: d}
+}
